@@ -16,10 +16,10 @@ From DV Require Import Base.Outcome Base.Bytes Base.Names Base.PName C05.Schema 
 Import ListNotations.
 Local Open Scope N_scope.
 
-Definition plain (l : list field) : schema := mkS l None false.
+Definition plain (l : list field) : schema := mkS l None false PNone.
 
 Definition name_only : schema := plain [NameC true].
-Definition ds_like (k : N) : schema := mkS [U16; U8; U8; Rest] (Some k) true.
+Definition ds_like (k : N) : schema := mkS [U16; U8; U8; Rest] (Some k) true PNone.
 
 Definition schema_table_regular : list (N * schema) :=
   [ (1,   plain [V4])                                             (* A *)
@@ -31,12 +31,12 @@ Definition schema_table_regular : list (N * schema) :=
   ; (7,   name_only)                                              (* MB *)
   ; (8,   name_only)                                              (* MG *)
   ; (9,   name_only)                                              (* MR *)
-  ; (10,  mkS [Rest] (Some 0) true)                               (* NULL *)
+  ; (10,  mkS [Rest] (Some 0) true PNone)                               (* NULL *)
   ; (12,  name_only)                                              (* PTR *)
   ; (13,  plain [CharStr; CharStr])                               (* HINFO *)
   ; (14,  plain [NameC true; NameC true])                         (* MINFO *)
   ; (15,  plain [U16; NameC true])                                (* MX *)
-  ; (16,  mkS [CharStrs] (Some 0) true)                           (* TXT *)
+  ; (16,  mkS [CharStrs] (Some 0) true PNone)                           (* TXT *)
   ; (17,  plain [NameC true; NameC true])                         (* RP *)
   ; (28,  plain [V6])                                             (* AAAA *)
   ; (33,  plain [U16; U16; U16; NameU true])                      (* SRV *)
@@ -44,21 +44,40 @@ Definition schema_table_regular : list (N * schema) :=
   ; (39,  plain [NameU true])                                     (* DNAME *)
   ; (43,  ds_like 0)                                              (* DS *)
   ; (44,  plain [U8; U8; Rest])                                   (* SSHFP *)
-  ; (46,  mkS [U16; U8; U8; U32; U32; U32; U16; NameU true; Rest] (Some 0) true) (* RRSIG *)
+  ; (46,  mkS [U16; U8; U8; U32; U32; U32; U16; NameU true; Rest] (Some 0) true PNone) (* RRSIG *)
+  ; (47,  plain [NameU false; Bitmap])                            (* NSEC *)
   ; (48,  ds_like 4)                                              (* DNSKEY *)
+  ; (50,  plain [U8; U8; U16; Len8Bytes; Len8Bytes; Bitmap])      (* NSEC3 *)
   ; (51,  plain [U8; U8; U16; Len8Bytes])                         (* NSEC3PARAM *)
   ; (52,  plain [U8; U8; U8; Rest])                               (* TLSA *)
   ; (59,  ds_like 4)                                              (* CDS *)
   ; (60,  ds_like 4)                                              (* CDNSKEY *)
   ; (61,  plain [Rest])                                           (* OPENPGPKEY *)
   ; (63,  plain [U32; U8; U8; FRest 12])                          (* ZONEMD *)
-  ; (250, mkS [NameU false; U48; U16; Len16Bytes; U16; U16; Len16Bytes] (Some 0) true) (* TSIG *)
+  ; (64,  mkS [U16; NameU false; SvcParamsF] (Some 0) true PNone) (* SVCB *)
+  ; (65,  mkS [U16; NameU false; SvcParamsF] (Some 0) true PNone) (* HTTPS *)
+  ; (250, mkS [NameU false; U48; U16; Len16Bytes; U16; U16; Len16Bytes] (Some 0) true PNone) (* TSIG *)
   ; (257, plain [U8; CaaTagStr; Rest])                            (* CAA *)
   ].
 
+(* the shape of the sum an rdlen() body computes: the constant part (fixed
+   width fields, the two length octets of every Len16Bytes) and the number of
+   field lengths it adds (compose_len() / len() of every other field) *)
+Fixpoint shape_fixed (l : list field) : N :=
+  match l with
+  | [] => 0
+  | FNum w :: l' => N.of_nat w + shape_fixed l'
+  | FFix k :: l' => N.of_nat k + shape_fixed l'
+  | FLen16 :: l' => 2 + shape_fixed l'
+  | _ :: l' => shape_fixed l'
+  end.
+Definition is_fixed (f : field) : bool := match f with FNum _ | FFix _ => true | _ => false end.
+Definition rdlen_shape (s : schema) : N * N :=
+  (shape_fixed (s_fields s), N.of_nat (length (filter (fun f => negb (is_fixed f)) (s_fields s)))).
+
 (* UnknownRecordData: from_octets checks the length, parse_any_rdata takes
    everything that remains *)
-Definition unknown_schema : schema := mkS [Rest] None true.
+Definition unknown_schema : schema := mkS [Rest] None true PNone.
 
 Fixpoint lookup (t : N) (l : list (N * schema)) : option schema :=
   match l with
@@ -68,8 +87,8 @@ Fixpoint lookup (t : N) (l : list (N * schema)) : option schema :=
 
 (* record types that AllRecordData knows but that have no row here: the
    irregular ones.  schema_of answers None for them (not modelled). *)
-Definition irregular_types : list N := [41; 45; 47; 50; 64; 65].
-(* OPT, IPSECKEY, NSEC, NSEC3, SVCB, HTTPS *)
+Definition irregular_types : list N := [41; 45].
+(* OPT (its option framing is OptModel.v, option contents below), IPSECKEY *)
 
 Definition schema_of (t : N) : option schema :=
   match lookup t schema_table_regular with
@@ -144,3 +163,28 @@ Definition c05_parse (t : N) (m : bytes) (pos lim : N) : option (outcome value) 
 
 Definition c05_eq_unknown (t1 : N) (b1 : bytes) (t2 : N) (b2 : bytes) : bool * bool :=
   (all_eq_unknown t1 b1 t2 b2, zone_eq_unknown t1 b1 t2 b2).
+
+(* ---- the contents of the EDNS options (base/opt/*.rs), by option code.
+   Option data is parsed in a sub-parser of exactly the option length by
+   OptIter::next_step, data left over is a form error: the same framing as
+   record data.  Chain reads its name with Name::parse (no compression). *)
+Definition option_table : list (N * schema) :=
+  [ (3,  plain [Rest])                                  (* NSID *)
+  ; (5,  plain [FChecked KEven])                        (* DAU *)
+  ; (6,  plain [FChecked KEven])                        (* DHU *)
+  ; (7,  plain [FChecked KEven])                        (* N3U *)
+  ; (8,  mkS [U16; U8; U8; Rest] None false PSubnet)    (* edns-client-subnet *)
+  ; (9,  plain [FChecked KExpire])                      (* EXPIRE *)
+  ; (10, plain [FChecked KCookie])                      (* COOKIE *)
+  ; (11, plain [FChecked KKeepalive])                   (* edns-tcp-keepalive *)
+  ; (12, plain [Rest])                                  (* Padding *)
+  ; (13, plain [NameU false])                           (* CHAIN *)
+  ; (14, plain [FChecked KEven])                        (* edns-key-tag *)
+  ; (15, plain [U16; Rest])                             (* Extended DNS Error *)
+  ].
+Definition option_schema (code : N) : schema :=
+  match lookup code option_table with Some s => s | None => plain [Rest] end.
+
+Definition c05_optdata (code : N) (d : bytes) : outcome value :=
+  parse_rdata flat_dec (option_schema code) d 0 (len d).
+Definition c05_optfields (code : N) : list field := s_fields (option_schema code).
